@@ -1,6 +1,7 @@
 package rules
 
 import (
+	"go/types"
 	"go/token"
 	"strings"
 
@@ -478,6 +479,70 @@ func c15(c *Ctx) {
 		c.R.Check(okPos, load.FuncName(ib)+": positioned on the package stream", c.pos(ib.Pos()), "the success return is reached only on header.Name == xpkg.StreamFile", "the reader returned is not positioned on the package stream file")
 	}
 
+	c.R.Rule("R15.7", "a failed source is never cached as a complete stream: the tee that feeds the cache tells the cache writer when reading the image failed", 2,
+		"a registry read error mid-stream leaves a truncated but well-formed cache entry; the next reconcile installs a prefix of the package's objects from the cache")
+	if cl := c.method("internal/xpkg", "teeReadCloser", "Close"); cl != nil {
+		rd := c.method("internal/xpkg", "teeReadCloser", "Read")
+		// the recorded read error: an error-typed field of the tee, tested in Close
+		var failed []cfgx.Edge
+		var fld string
+		for _, cf := range findCmps(cl, false, func(x, y ssa.Value) bool {
+			if !cfgx.IsNilConst(y) {
+				return false
+			}
+			_, p, ok := flow.AccessPathC(x)
+			if !ok || strings.Contains(p, ".") || p == "w" || p == "r" || p == "t" {
+				return false
+			}
+			ld, isLoad := x.(*ssa.UnOp)
+			if !isLoad {
+				return false
+			}
+			fa, isF := ld.X.(*ssa.FieldAddr)
+			if !isF || !isErrType(ld.Type()) || flow.Root(fa.X) != ssa.Value(cl.Params[0]) {
+				return false
+			}
+			fld = p
+			return true
+		}) {
+			failed = append(failed, cf.Holds...)
+		}
+		var clean []ssa.CallInstruction
+		for _, x := range cfgx.Calls(cl, nil) {
+			if x.Common().IsInvoke() && x.Common().Method.Name() == "Close" {
+				if _, p, _ := flow.AccessPathC(x.Common().Value); p == "w" {
+					clean = append(clean, x)
+				}
+			}
+		}
+		if len(failed) == 0 {
+			c.R.Bad(load.FuncName(cl)+": source failure reaches the writer", c.pos(cl.Pos()), "Close never consults a recorded read error: the writer always sees a clean end of stream, also after the source failed mid-way")
+		} else {
+			bad := false
+			var at ssa.Instruction = cl.Blocks[0].Instrs[0]
+			for _, x := range clean {
+				if r, _ := cfgx.ReachableFromEdges(failed, x, nil, nil); r {
+					bad = true
+					at = x
+				}
+			}
+			c.R.Check(!bad && len(clean) > 0, load.FuncName(cl)+": source failure reaches the writer", c.pos(at.Pos()), "after a recorded read error the writer is not closed cleanly", "the writer is closed cleanly although reading the source failed")
+			recorded := false
+			if rd != nil {
+				for _, b := range rd.Blocks {
+					for _, in := range b.Instrs {
+						if st, ok := in.(*ssa.Store); ok {
+							if _, p, _ := flow.AccessPathC(st.Addr); p == fld && isErrType(st.Val.Type()) {
+								recorded = true
+							}
+						}
+					}
+				}
+			}
+			c.R.Check(recorded, "teeReadCloser.Read records the source error", c.pos(cl.Pos()), "Read stores a non-EOF error of the source into the field Close consults", "no Read error is ever recorded in the field Close consults")
+		}
+	}
+
 	c.R.Rule("R15.6", "the running version checked against a package's constraints is the build version itself; the object scheme (the allow-list of kinds for package types without per-object lint) registers only the package API groups", 4,
 		"a pre-release Crossplane would satisfy constraints it does not meet; a Function package could ship kinds no package may contain")
 	if gs := c.method("internal/version", "Versioner", "GetSemVer"); gs != nil {
@@ -688,4 +753,9 @@ func pullNeverFlags(fn *ssa.Function) []ssa.Value {
 		}
 	}
 	return out
+}
+
+func isErrType(t types.Type) bool {
+	n, ok := t.(*types.Named)
+	return ok && n.Obj().Pkg() == nil && n.Obj().Name() == "error"
 }
